@@ -19,6 +19,7 @@ import (
 	"net"
 	"net/http"
 	"strings"
+	"sync"
 	"testing"
 	"time"
 
@@ -171,6 +172,7 @@ func TestVerifC03(t *testing.T) {
 	// into step after loops with a variable number of draws
 	r2 := vNewRand((vSeed()+1)*1000003 + 0x303)
 	vC03ReplaceAPI(r2, pool)
+	vC03ReplaceRace(r2, pool)
 	vC03CurrentList(r2, pool)
 }
 
@@ -266,6 +268,42 @@ func vC03ReplaceAPI(r *vRand, pool []vKeyPair) {
 	}
 }
 
+// vC03ReplaceRace: a lookup (the first one after the list was set) overlaps an update of a large list, at moments spread over
+// the lookup: once both have ended, what the store answers is what the update says - for good
+func vC03ReplaceRace(r *vRand, pool []vKeyPair) {
+	const n = 40000
+	keys := make([]ed25519.PublicKey, 0, n+1)
+	for i := 0; i < n; i++ {
+		keys = append(keys, ed25519.PublicKey(r.Bytes(32)))
+	}
+	keys = append(keys, pool[0].Pub)
+	fail, detail := "", ""
+	rounds := 16
+	for round := 0; round < rounds && fail == ""; round++ {
+		store, err := credentials.ValidPublicKeysFromEd25519(append([]ed25519.PublicKey(nil), keys...)...)
+		if err != nil {
+			panic(err)
+		}
+		empty, _ := credentials.ValidPublicKeysFromEd25519()
+		var wg sync.WaitGroup
+		wg.Add(1)
+		go func() {
+			defer wg.Done()
+			_ = store.Contains(pool[0].Pub)
+		}()
+		time.Sleep(time.Duration(round) * 150 * time.Microsecond)
+		store.Replace(empty)
+		wg.Wait()
+		for k := 0; k < 3 && fail == ""; k++ {
+			if store.Contains(pool[0].Pub) || store.VerifyPeerCertificate()([][]byte{vSelfSigned(pool[0].Priv)}, nil) == nil {
+				fail = "allow-list-replace-not-effective/after-a-concurrent-lookup"
+				detail = fmt.Sprintf("round %d: the list was replaced by the empty one while a lookup was running; afterwards a removed key is still accepted", round)
+			}
+		}
+	}
+	vEmit(vCase{Class: "replace-race", Fail: fail, Sig: "replace-race", Info: map[string]interface{}{"keys": n + 1, "rounds": rounds, "outcome": fail == "", "detail": detail}})
+}
+
 // vSession dials with the given TLS configuration and reports whether the peer got a session (the server
 // answers a request), whether the TLS handshake was a resumption, and the dial error.
 func vC03Session(addr string, cfg *tls.Config, wait time.Duration) (served, resumed bool, derr error) {
@@ -350,6 +388,46 @@ func vC03CurrentList(r *vRand, pool []vKeyPair) {
 					} else if again, _, _ := vC03Session(addr, vClientTLS(good, skey.Pub), 3*time.Second); !again {
 						c.Fail = "auth-e2e/listed-peer-refused"
 					}
+				}
+			}
+			vEmit(c)
+			vStop(s, 5*time.Second)
+		}
+		// ---- the key is taken off the list after its TLS handshake has been verified and before it sends the websocket
+		// upgrade (a peer which connects early and upgrades late): it gets no session
+		{
+			s, impl, addr := start()
+			c := vCase{Class: "e2e/" + entry + "/revoked-between-tls-and-upgrade", Sig: entry + "late-upgrade"}
+			info := map[string]interface{}{}
+			c.Info = info
+			tc, terr := tls.DialWithDialer(&net.Dialer{Timeout: 3 * time.Second}, "tcp", addr, vClientTLS(good, skey.Pub))
+			if terr != nil {
+				c.Fail = "auth-e2e/listed-peer-refused"
+				info["dial_err"] = terr.Error()
+			} else {
+				time.Sleep(30 * time.Millisecond)
+				impl.take()
+				uerr := s.UpdatePublicKeys(other.Pub)
+				d := websocket.Dialer{HandshakeTimeout: 2 * time.Second,
+					NetDialTLSContext: func(ctx context.Context, network, a string) (net.Conn, error) { return tc, nil }}
+				conn, _, derr := d.Dial("wss://"+addr, http.Header{})
+				served := false
+				if derr == nil {
+					_ = conn.WriteMessage(websocket.BinaryMessage, vSizedRequest(120, "00000000-0000-4000-8000-0000000c0312"))
+					conn.SetReadDeadline(time.Now().Add(700 * time.Millisecond))
+					_, _, rerr := conn.ReadMessage()
+					served = rerr == nil
+					conn.Close()
+				} else {
+					tc.Close()
+				}
+				vWaitUntil(2*time.Second, func() bool { return s.OpenConnections() == 0 })
+				handled := len(impl.take())
+				info["outcome"] = fmt.Sprintf("update_err=%v upgrade_err=%v served=%v handled=%d open=%d", uerr, derr != nil, served, handled, s.OpenConnections())
+				if uerr != nil {
+					c.Fail = "auth-e2e/update-refused"
+				} else if served || handled > 0 || s.OpenConnections() != 0 {
+					c.Fail = "auth-e2e/served-although-taken-off-the-list"
 				}
 			}
 			vEmit(c)
